@@ -259,7 +259,7 @@ func main() {
 	states += c.ParFor(len(chords), func(i int) {
 		a, b := chords[i][0], chords[i][1]
 		d := norm(sub(b, a))
-		for _, rm := range []float64{0.5 * (1 + 1.0/(1<<20)), 1, 4} {
+		for _, rm := range []float64{0.5, 0.5 * (1 + 1.0/(1<<20)), 1, 4} { // 0.5: an exact semicircle (round 9)
 			for _, sg := range []float64{1, -1} {
 				for _, f := range []int{2, 3, 8} {
 					r := sg * rm * d
@@ -284,6 +284,10 @@ func main() {
 					h := math.Sqrt(math.Max(0, r*r-d*d/4))
 					ctr := add(mid, mul(nrm, sg*h))
 					tol := 1e-9 * (1 + math.Abs(r))
+					if rm == 0.5 {
+						// exact semicircle: the centre's offset from the chord is the square root of a rounding error
+						tol += 8 * math.Sqrt(2.3e-16) * d
+					}
 					tot := 2 * math.Asin(math.Min(1, d/(2*math.Abs(r))))
 					ok := true
 					for j := 1; j < f; j++ {
@@ -308,6 +312,71 @@ func main() {
 			}
 		}
 	})
+	// outlines with several arcs (round 9): a path of five points, every subset of at least two of its four segments
+	// an arc (radius 1 or 1.5 chords, signs alternating or equal, 2 / 3 / 8 / mixed facets): the vertex list is the
+	// concatenation of the arcs' points computed independently, and a second Vertices() call returns the same list
+	{
+		path := []v2.Vec{{X: 0, Y: 0}, {X: 4, Y: 0}, {X: 5, Y: 3}, {X: 1, Y: 4}, {X: -2, Y: 2}}
+		arcPts := func(a, b v2.Vec, r float64, f int) []v2.Vec {
+			d := norm(sub(b, a))
+			sg := 1.0
+			if r < 0 {
+				sg = -1
+			}
+			mid := mul(add(a, b), 0.5)
+			ab := unit(sub(b, a))
+			nrm := v2.Vec{X: ab.Y, Y: -ab.X}
+			ctr := add(mid, mul(nrm, sg*math.Sqrt(math.Max(0, r*r-d*d/4))))
+			tot := 2 * math.Asin(math.Min(1, d/(2*math.Abs(r))))
+			var out []v2.Vec
+			for j := 1; j < f; j++ {
+				th := -sg * tot * float64(j) / float64(f) // centre on the right of a->b for r > 0: from a to b along the minor arc is clockwise
+				ra := sub(a, ctr)
+				out = append(out, add(ctr, v2.Vec{X: ra.X*math.Cos(th) - ra.Y*math.Sin(th), Y: ra.X*math.Sin(th) + ra.Y*math.Cos(th)}))
+			}
+			return out
+		}
+		for mask := 1; mask < 16; mask++ {
+			if mask&(mask-1) == 0 {
+				continue // single arcs are above
+			}
+			for fi, fs := range [][4]int{{2, 2, 2, 2}, {3, 3, 3, 3}, {8, 8, 8, 8}, {8, 2, 3, 5}, {2, 9, 2, 4}} {
+				for si, signs := range [][4]float64{{1, -1, 1, -1}, {1, 1, 1, 1}, {-1, -1, 1, 1}} {
+					for _, rm := range []float64{1, 1.5} {
+						pg := sdf.NewPolygon()
+						pg.AddV2(path[0])
+						want := []v2.Vec{path[0]}
+						for k := 1; k < 5; k++ {
+							v := pg.AddV2(path[k])
+							if mask&(1<<(k-1)) != 0 {
+								r := signs[k-1] * rm * norm(sub(path[k], path[k-1]))
+								v.Arc(r, fs[k-1])
+								want = append(want, arcPts(path[k-1], path[k], r, fs[k-1])...)
+							}
+							want = append(want, path[k])
+						}
+						got := pg.Vertices()
+						again := pg.Vertices()
+						states++
+						atomic.AddInt64(&atr, 1)
+						desc := map[string]any{"path": path, "arc_segments_mask": mask, "facets": fs, "radius_signs": signs, "radius_in_chords": rm}
+						_, _ = fi, si
+						same := len(got) == len(want)
+						for i := 0; same && i < len(got); i++ {
+							same = near(got[i], want[i], 1e-9)
+						}
+						if !same {
+							c.Violation("Polygon.Arc|several-arcs-in-one-outline|vertices-differ-from-the-specified-arcs", fmt.Sprintf("arcs on segments %04b, facets %v, signs %v, r = %g chords: %d vertices %v, specified %d: %v", mask, fs, signs, rm, len(got), got, len(want), want), desc)
+							continue
+						}
+						if len(again) != len(got) {
+							c.Violation("Polygon.Arc|several-arcs-in-one-outline|second-Vertices-call-differs", fmt.Sprintf("arcs on segments %04b: first call %d vertices, second call %d", mask, len(got), len(again)), desc)
+						}
+					}
+				}
+			}
+		}
+	}
 	// API histories of the polygon builder: vertices added one by one and then as a set (every pre-count 0..6 and
 	// set size 1..5, so that every capacity step of the vertex list is crossed), and Close() on polygons whose last
 	// vertex stores the same numbers as the first (a relative vertex, or a closing arc back to the start)
